@@ -13,6 +13,11 @@ use crate::version::cache::PackageId;
 /// Trait for storing and retrieving version information
 #[cfg_attr(test, automock)]
 pub trait VersionStorer: Send + Sync + 'static {
+    /// Apply the settings the client answered: how old a package may be before it is
+    /// refreshed (milliseconds) and whether prerelease versions can be the latest one.
+    /// Storers without such settings ignore the call.
+    fn configure(&self, _refresh_interval: i64, _ignore_prerelease: bool) {}
+
     /// Get the latest version for a package
     fn get_latest_version(
         &self,
